@@ -1,9 +1,11 @@
 package checks
 
 import (
+	"bufio"
 	"bytes"
 	"errors"
 	"fmt"
+	"io"
 	"net"
 	"os"
 	"os/exec"
@@ -161,7 +163,11 @@ func drainParser(r *scriptedReader, o *Outcome, desc string) (sig string, detail
 			detail = fmt.Sprintf("parser panicked: %v", p)
 		}
 	}()
-	p := proto.NewParserWithReader(r)
+	var rd io.Reader = r
+	if r.viaBufio {
+		rd = bufio.NewReader(r) // what an application that buffers its input hands to the parser
+	}
+	p := proto.NewParserWithReader(rd)
 	for i := 0; i < len(r.data)+4; i++ {
 		before := r.reads
 		m, err := p.Next()
@@ -346,6 +352,7 @@ func runC06(t *testing.T, tape *sim.Tape, tier string) *Outcome {
 	// delivery schedules on top of the stream faults
 	for j := 0; j < 4; j++ {
 		r := &scriptedReader{data: bad, endErr: endErr}
+		r.viaBufio = tape.Draw(4, "viabufio") == 3
 		switch j {
 		case 1:
 			r.one = true
@@ -440,7 +447,7 @@ func init() {
 	register(&Check{
 		ID: "C06", Bubble: false, Run: runC06,
 		Runs:   map[string]int{"quick": 300000, "thorough": 10000000},
-		Rule:   "a case is one (faulted stream, delivery schedule) pair: a valid generated stream with 1..3 transport/peer faults (truncate at any byte with EOF, ECONNRESET, a read deadline that has expired and stays expired, an error value of slice type or a wrapped net.ErrClosed, segment loss/duplication/reordering, byte corruption biased to structure, length/count replaced by a boundary integer, nesting amplification) delivered whole, byte-wise, in a seeded partition and whole together with the end-of-stream indication (n>0 with EOF/ECONNRESET); 1 stream in 16 carries no fault; 1 in 16 begins with a line made of 1..4 of the literals found in the parser's own sources; at the end of every run a fresh parser must read four valid probe values (nested, flat, deeply nested, wide) correctly; inputs declaring lengths above 2^20 and an enumerated boundary table run one per subprocess under a 4 GiB address-space limit; distinct = distinct (stream, partition) hashes; non-trivial = at least one fault applied",
+		Rule:   "a case is one (faulted stream, delivery schedule) pair: a valid generated stream with 1..3 transport/peer faults (truncate at any byte with EOF, ECONNRESET, a read deadline that has expired and stays expired, an error value of slice type or a wrapped net.ErrClosed, segment loss/duplication/reordering, byte corruption biased to structure, length/count replaced by a boundary integer, nesting amplification) delivered whole, byte-wise, in a seeded partition (a quarter of the deliveries through a *bufio.Reader) and whole together with the end-of-stream indication (n>0 with EOF/ECONNRESET); 1 stream in 16 carries no fault; 1 in 16 begins with a line made of 1..4 of the literals found in the parser's own sources; at the end of every run a fresh parser must read four valid probe values (nested, flat, deeply nested, wide) correctly; inputs declaring lengths above 2^20 and an enumerated boundary table run one per subprocess under a 4 GiB address-space limit; distinct = distinct (stream, partition) hashes; non-trivial = at least one fault applied",
 		Real:   []string{"redis/proto parser"},
 		Stub:   []string{"transport: scripted io.Reader applying stream faults", "process isolation: prlimit --as=4GiB subprocess for allocation bombs"},
 		Assume: []string{"a deployment with a 4 GiB address-space limit must survive any input of at most 1 MiB", "coverage-guided fuzzing is a different technique and is not done"},
